@@ -676,9 +676,11 @@ func runC11(c *Ctx) {
 	R.Rules["E5.stop-order"] = "teardown leaves the registry before anything else and runs once"
 	R.Rules["E5.own-key"] = "a connection records a key as its own only after the join succeeded (a refused duplicate leaves with the empty key and cannot evict the owner)"
 	R.Rules["E5.refuse"] = "the key-exists refusal ends only the refused connection"
+	R.Rules["E5.reply-per-request"] = "a function that submits an operation to the manager and waits for its outcome waits on a channel made by that very call: concurrent callers never share a reply channel (with a shared one a caller can take the answer meant for another - a duplicate is accepted, a free key refused)"
 	R.Rules["E5.route"] = "commands are routed through the same map: hit → that session's channel, miss → immediate not-exist error"
 	c.sessionRules(true)
 	c.managerOnce()
+	c.replyPerRequest()
 	R.Require("E5.confine", 3, "")
 	R.Require("E5.leave", 1, "")
 	R.Require("E5.stop-order", 2, "")
@@ -716,4 +718,35 @@ func (c *Ctx) managerOnce() {
 		st, d = report.Violated, fmt.Sprintf("the manager loop (which keeps the key→session map in a local variable) is started at %d places %v: with more than one manager goroutine the registry is split over private maps and operations land on either", len(sites), sites)
 	}
 	R.Add("E5.confine", "sessionManager.run / started exactly once", "", st, d)
+}
+
+// replyPerRequest: every function of the service package that submits an operation to the manager and then receives
+// from a channel receives from a channel made by that invocation.
+func (c *Ctx) replyPerRequest() {
+	R := c.R
+	n := 0
+	for _, fn := range c.RepoFuncs("service") {
+		if fn.Parent() != nil || len(c.opsSentOn(fn, "operationFuncChan")) == 0 {
+			continue
+		}
+		for _, b := range fn.Blocks {
+			for _, ins := range b.Instrs {
+				u, isU := ins.(*ssa.UnOp)
+				if !isU || u.Op != token.ARROW {
+					continue
+				}
+				n++
+				ok, why := c.freshPerEvaluation(u.X, u)
+				st := report.Discharged
+				if !ok {
+					st = report.Violated
+					why = "the outcome of the submitted operation is awaited on a channel that is not made by this call: " + why
+				} else {
+					why = ""
+				}
+				R.Add("E5.reply-per-request", fmt.Sprintf("%s / %s", shortFn(fn), c.constructOf(fn, u)), c.P.RelPos(u.Pos()), st, why)
+			}
+		}
+	}
+	R.Require("E5.reply-per-request", 2, "")
 }
